@@ -61,7 +61,6 @@ package stdlib
 //@ assume-contract iface:context.Context.Done
 //@   pure
 //@   nopanic
-//@   ensures result != nil [ASSUMED]
 
 //@ assume-contract time.After
 //@   ghost label TA
